@@ -7,7 +7,8 @@ import ast
 from ..cfg import WithCtx
 from ..core import rule
 from ..dataflow import DefUse
-from ..program import AnalysisError, dotted, src, walk_local
+from ..program import AnalysisError, dotted, src
+from ..core import walk_local  # inline-aware
 from .common import handler_catching, handler_body_nodes, translation, where
 from .storelib import facts, node_desc, StoreFacts
 from .c09 import BARE, TREE, _commit_nodes, in_locked_index
